@@ -461,6 +461,24 @@ class AlgebraProfile(FieldProfile):
             queue += [upd, {"op": "A.vecop", "a": a, "b": b, "f": f, "out": None, "operator": False}, {"op": "A.vecop", "a": b, "b": a, "f": f, "out": None, "operator": False}]
             st.stats.probe("evaluate_update_evaluate")
             return {"op": "A.vecop", "a": a, "b": b, "f": f, "out": out, "operator": False}
+        if rng.random() < 0.06:
+            # evaluate a (op) b on equal-but-distinct meshes - move b's mesh in place - a (op) b must now be refused
+            twins = [(x, m) for x in fields for m in meshes if st.h[x].box is st.h[m].box and st.h[x].box is not ha.box
+                     and st.h[x].box.v.key()[:2] == ha.box.v.key()[:2] and st.h[x].fm.nvdim == ha.fm.nvdim
+                     # (a resampled field keeps the Region OBJECT of its source mesh; moving that mesh in place
+                     # moves both - no claimed property speaks about it, so such meshes are left alone)
+                     and not any(st.h[y].obj.mesh.region is st.h[m].obj.region for y in fields if st.h[y].box is not st.h[m].box)]
+            if twins:
+                b, mb = rng.choice(twins)
+                mm = st.h[mb].box.v
+                ax = rng.randrange(mm.region.ndim)
+                v = [0.0] * mm.region.ndim
+                v[ax] = float(mm.cell[ax]) * rng.choice([1, 2, -1])
+                f = rng.choice(["add", "mul", "sub"])
+                queue += [{"op": "translate", "on": mb, "v": v, "inplace": True, "out": None},
+                          {"op": "A.reject", "a": a, "b": b, "f": f, "fault": "rejected_args"}, {"op": "A.reject", "a": b, "b": a, "f": rng.choice(["dot", "add"]), "fault": "rejected_args"}]
+                st.stats.probe("evaluate_move_mesh_evaluate")
+                return {"op": "A.binary", "a": a, "b": b, "f": f, "out": out}
         if rng.random() < cfg["p_reject"] and len(fields) >= 2:
             if rng.random() < 0.3 and max(ha.box.v.n) > 1:
                 # the same region, other cell counts (1 along some axes: shapes numpy would
@@ -470,6 +488,10 @@ class AlgebraProfile(FieldProfile):
                     ones[max(range(len(ones)), key=lambda k: ha.box.v.n[k])] = True
                 queue.append({"op": "A.reject", "a": a, "b": out, "f": rng.choice(["add", "sub", "mul", "truediv", "dot", "cross", "angle"]), "fault": "rejected_args"})
                 return {"op": "A.resample", "on": a, "ones": ones, "out": out}
+            if rng.random() < 0.3:
+                nv = ha.fm.nvdim
+                bad = {"vec": [1.0] * rng.choice([k for k in (2, 3, 4, 5) if k != nv]), "as": rng.choice(["list", "tuple", "ndarray"])} if nv > 1 and rng.random() < 0.6 else {"bad": rng.choice(["str", "none", "dict"])}
+                return {"op": "A.reject", "a": a, "b": bad, "f": rng.choice(["add", "sub", "sub", "mul", "truediv"]), "reflected": rng.random() < 0.6, "fault": "rejected_args"}
             b = rng.choice([s for s in fields if s != a])
             return {"op": "A.reject", "a": a, "b": b, "f": rng.choice(["add", "sub", "mul", "truediv", "dot", "cross", "angle", "lshift"]), "fault": "rejected_args"}
         r = rng.random()
@@ -480,7 +502,7 @@ class AlgebraProfile(FieldProfile):
             b = self.operand(rng, st, ha, fields)
             o = {"op": "A.binary", "a": a, "b": b, "f": f, "out": out}
             if f == "pow":
-                o["b"] = {"num": rng.choice([2, 3, 0, 1, -1, 0.5])}
+                o["b"] = {"num": rng.choice([2, 3, 0, 1, -1, 0.5, -1.0, -2.0, 2.0])}
             if not isinstance(o["b"], int) and rng.random() < 0.4 and f != "pow":
                 o["reflected"] = True
             return o
